@@ -27,11 +27,12 @@ CONFIGS = {
     "S6c": (dict(Texts='{"t1","t2"}', MsgKinds='{"change","close","cfg"}', MaxCfg=1, MaxMsgs=2, Outside='{"u1"}', CfgAddsLib='TRUE', InitOpen='{"u1"}'), 400, None),
     "S7": (dict(Uris='{"u1","u2"}', Texts='{"t1"}', MsgKinds='{"open","close","rename"}', MaxMsgs=3, OnDisk='{"u1"}', RenameClears='TRUE'), 400, None),
     "S7x": (dict(Uris='{"u1","u2"}', Texts='{"t1","t2"}', MsgKinds='{"open","change","close","rename"}', MaxMsgs=4, OnDisk='{"u1"}', RenameClears='TRUE'), None, 5000),
+    "S4w": (dict(MsgKinds='{"open","change","close","watch"}', OnDisk='{"u1"}', MaxMsgs=3), 400, None),
     "S2n": (dict(Texts='{"t1"}', MsgKinds='{"open","close","cfg"}', MaxCfg=1, MaxDisk=1, OnDisk='{}', MaxMsgs=3), 300, None),
 }
 
 PLAN = {
-    "C27": {"quick": ["S1", "S1d", "S6"], "thorough": ["S1", "S1d", "S6", "S1x", "S1u2"]},
+    "C27": {"quick": ["S1", "S1d", "S6", "S4w"], "thorough": ["S1", "S1d", "S6", "S4w", "S1x", "S1u2"]},
     "C29": {"quick": ["S2", "S2n", "S2i", "S6c", "S5"], "thorough": ["S2", "S2n", "S2i", "S6c", "S5", "S5d", "S2c", "S5x"]},
     "C30": {"quick": ["S4", "S1", "S5", "S7"], "thorough": ["S4", "S1", "S5", "S7", "S5d", "S4x", "S2", "S5x", "S7x"]},
 }
